@@ -7,6 +7,8 @@ import GontainerModel.Props.C03
 #print axioms GM.C03.factories_pinned
 #print axioms GM.C03.tokenizer_pinned
 #print axioms GM.C03.escape_roundtrip
+#print axioms GM.C03.literal_roundtrip
+#print axioms GM.C03.literal_ascii
 #print axioms GM.C03.single_chunk_preserves_type
 #print axioms GM.C03.multi_chunk_concatenates
 #print axioms GM.C03.fn_error_names_token
